@@ -135,7 +135,7 @@ def run_one(path):
             else:
                 res.append('%s silent' % prop)
         else:
-            if want & rules or (not want and vs):
+            if want & rules or ((not want or want == {'*'}) and vs):
                 res.append('%s detected by %s' % (prop, sorted(rules)))
             else:
                 okall = False
